@@ -122,10 +122,10 @@ class StatementInserter(ast.NodeTransformer, EmitterMixin):
         self.expr_rewriter = expr_rewriter
 
     def _handle_loop_body(
-        self, node: Union[ast.For, ast.While], orig_body: List[ast.AST]
+        self, node: Union[ast.For, ast.AsyncFor, ast.While], orig_body: List[ast.AST]
     ) -> List[ast.AST]:
         loop_node_copy = cast(
-            Union[ast.For, ast.While],
+            Union[ast.For, ast.AsyncFor, ast.While],
             fast.copy_ast(self.orig_to_copy_mapping[id(node)]),
         )
         # keep loop_node_copy itself the same shape as the pristine loop (the guard-exempt mapping
@@ -141,7 +141,7 @@ class StatementInserter(ast.NodeTransformer, EmitterMixin):
         else:
             loop_guard = None
         with fast.location_of(loop_node_copy):
-            if isinstance(node, ast.For):
+            if isinstance(node, (ast.For, ast.AsyncFor)):
                 before_loop_evt = TraceEvent.before_for_loop_body
                 after_loop_evt = TraceEvent.after_for_loop_iter
             else:
@@ -399,7 +399,8 @@ class StatementInserter(ast.NodeTransformer, EmitterMixin):
     ) -> List[ast.stmt]:
         stmts_to_extend: List[ast.stmt] = []
         if isinstance(
-            node, (ast.FunctionDef, ast.AsyncFunctionDef, ast.For, ast.While)
+            node,
+            (ast.FunctionDef, ast.AsyncFunctionDef, ast.For, ast.AsyncFor, ast.While),
         ) and isinstance(inner_node, (ast.Global, ast.Nonlocal)):
             return stmts_to_extend
         if self._is_docstring_stmt(node, field_name, inner_node):
@@ -494,7 +495,7 @@ class StatementInserter(ast.NodeTransformer, EmitterMixin):
                 if name == "body":
                     if isinstance(node, ast.Module):
                         new_field = self._handle_module_body(node, new_field)
-                    elif isinstance(node, (ast.For, ast.While)):
+                    elif isinstance(node, (ast.For, ast.AsyncFor, ast.While)):
                         new_field = self._handle_loop_body(node, new_field)
                     elif isinstance(node, (ast.FunctionDef, ast.AsyncFunctionDef)):
                         new_field = self._handle_function_body(node, new_field)
